@@ -6,7 +6,7 @@ P = {}
 def prop(pid, category, technique, text, note, design):
     P[pid] = dict(category=category, technique=technique, text=text, note=note, design=design)
 
-prop('C16', 'model_checking', 'explicit-state BFS to closure over the real bitmap objects\' private state, reference-set oracle on every transition',
+prop('C16', 'model_checking', 'explicit-state BFS to closure over the real bitmap objects\' private state (<= 17 elements), reference-set oracle on every transition; plus exhaustive enumeration of every query/update range on families of contents of wide bitmaps (64..330 elements, engines/bitmapw.c)',
      'Every reachable private state (rbtree shape/colours/cursors, array bytes, end/real_end) of each backend within the scope (<= 17 elements, '
      'cluster ratios 1/2/4, with and without resize/fudge) is expanded by every operation of the alphabet with every in-range argument; each '
      'transition is executed on the real code and compared with a uint64 reference set, so the claim is for histories of any length inside the scope.',
@@ -24,11 +24,11 @@ prop('C01', 'fault_enumeration', 'exhaustive deviation-bounded corruption sweep 
      'Every single-field mutant (with and without re-sealed checksum) of the committed corpus images is repaired with e2fsck -fy; whenever that run claims success the next e2fsck -fn must exit 0 with an empty problem log. '
      'Non-convergent inputs that exist on the pinned tree are genuine e2fsck defects listed by exact mutant id in known_findings/C01.cases.json; any other non-convergent mutant is a violation.',
      'scope: images within one (thorough: two) corrupted catalogue fields of 13 small corpus images (the MMP image is excluded because read-write e2fsck sleeps 11 s on it); not arbitrary images.', '4/C01')
-prop('C02', 'fault_enumeration', 'same exhaustive corruption sweep; oracle = independent ext4 checker xck on every mutant that e2fsck -fn accepts',
+prop('C02', 'fault_enumeration', 'exhaustive corruption sweep (catalogue fields of corpus images, every in-use inode of a geometry family of runtime images, prepared multi-object scenarios); oracle = independent ext4 checker xck on every mutant that e2fsck -fn accepts',
      'For every mutant that e2fsck -fn accepts (exit 0) the independent checker (own struct layouts, CRCs, dirhash; tools/xck) must find no violation of block-reference, allocation, link, structure or checksum invariants. '
      'Five root causes where the pinned e2fsck accepts inconsistent images are recorded as known findings (by root-cause signature or exact mutant id).',
      'trusted: xck, calibrated against e2fsck on the repo\'s 278 clean f_* images (tools/xck_calibrate.py); invariants e2fsck documents as ignorable are not asserted (list in the evidence assumptions).', '4/C02')
-prop('C13', 'fault_enumeration', 'exhaustive product of images (corpus + unrecovered journal + single-field mutants) x read-only invocations, byte-identity oracle',
+prop('C13', 'fault_enumeration', 'exhaustive product of images (corpus + unrecovered journal + single-field mutants, external-journal pair x journal superblock states, undo files) x read-only invocations (every option spelling that changes how the device is opened), byte-identity oracle',
      'Every image of the set x 11-17 read-only invocations of e2fsck/debugfs/dumpe2fs/tune2fs/resize2fs/e2image/e2freefrag/mke2fs -n: the image file must keep its mtime/size after each invocation and be byte-identical at the end.  Part B: undo files recorded by tune2fs/debugfs/e2fsck -z (finished, unfinished, and every header/key field at boundary values under re-sealed checksums) x e2undo -n / -n -f / -n -v / -h / -n -z: image and undo file byte-identical afterwards.',
      'quick restricts mutants to fields that steer open-time behaviour (superblock, descriptors, journal superblock, MMP, reserved inodes); thorough uses the whole catalogue.', '4/C13')
 prop('C14', 'model_checking', 'exhaustive byte-flip coverage sweep over checksum-covered ranges + tool-operation x independent checksum recomputation + exhaustive CRC primitive comparison over length x alignment x GF(2) basis',
@@ -130,6 +130,9 @@ def main():
          'engines': [{'name': 'vcheck', 'path': 'tools/vcheck', 'serves_properties': [c['property_id'] for c in checks],
                       'kind_free_text': 'dispatcher: rebuilds /repo working tree (tools/build.sh), runs the per-property explorer in tools/checks/, writes evidence'},
                      {'name': 'bitmapx', 'path': 'engines/bitmapx.c', 'serves_properties': ['C16'], 'kind_free_text': 'explicit-state closure explorer over real bitmap backends'},
+                     {'name': 'bitmapw', 'path': 'engines/bitmapw.c', 'serves_properties': ['C16'], 'kind_free_text': 'exhaustive range-query/update enumerator over families of contents of wide bitmaps'},
+                     {'name': 'fileopx', 'path': 'engines/fileopx.c', 'serves_properties': ['C09'], 'kind_free_text': 'in-process replay of file-operation histories on libext2fs with a byte-array reference model'},
+                     {'name': 'xattrx', 'path': 'engines/xattrx.c', 'serves_properties': ['C15'], 'kind_free_text': 'in-process replay of xattr operation histories with a map reference model'},
                      {'name': 'iochanx', 'path': 'engines/iochanx.c', 'serves_properties': ['C17'], 'kind_free_text': 'BFS over channel histories on unix_io.c with an in-memory device (engines/vdev.h)'},
                      {'name': 'rwbmx', 'path': 'engines/rwbmx.c', 'serves_properties': ['C17'], 'kind_free_text': 'preemption-bounded scheduler (futex baton, --wrap hooks) + ICB DFS, differential and TSan modes'}],
          'checks': checks, 'not_applicable': na,
